@@ -56,6 +56,9 @@ func runToy(t *testing.T, b Bounds, locked bool) (execs int64, lost int, outcome
 }
 
 func TestToy(t *testing.T) {
+	if vrt.RaceEnabled {
+		t.Skip("contains an intentional data race")
+	}
 	for p := 0; p <= 3; p++ {
 		var b Bounds
 		b[vrt.KPreempt] = p
